@@ -250,6 +250,21 @@ pub fn conditional_families() -> Vec<(Expr, String)> {
             out.push((e, s));
         }
     }
+    // a look-around as the condition, capture groups in both branches (group numbers follow
+    // the order in which the parentheses open; seed S11-C16)
+    for la in [LookAround::LookAhead, LookAround::LookAheadNeg, LookAround::LookBehind, LookAround::LookBehindNeg].iter() {
+        let e = Expr::Concat(vec![
+            Expr::Repeat { child: Box::new(lit("a")), lo: 0, hi: 1, greedy: true },
+            Expr::Conditional {
+                condition: Box::new(Expr::LookAround(Box::new(lit("a")), *la)),
+                true_branch: Box::new(Expr::Group(Box::new(lit("b")))),
+                false_branch: Box::new(Expr::Group(Box::new(lit("c")))),
+            },
+        ]);
+        if let Some(s) = unparse::unparse(&e, &st) {
+            out.push((e, s));
+        }
+    }
     // an empty yes-branch with a non-empty no-branch (seed S8-C15)
     for no in [vec!["b"], vec!["b", "c"], vec!["ab", "a"]].iter() {
         let no_e = if no.len() == 1 { word(no[0]) } else { Expr::Alt(no.iter().map(|w| word(w)).collect()) };
